@@ -38,6 +38,7 @@ from __future__ import annotations
 import hashlib
 import json
 import logging
+import math
 import re
 import threading
 import time
@@ -124,6 +125,17 @@ class TokenIdentity:
 #: is unknown, and a caller that negative-caches the second must not cache the
 #: first.
 TokenResolver = Callable[[str], "TokenIdentity | None"]
+
+
+def _usable_ttl(ttl: object) -> bool:
+    """Return ``True`` if *ttl* is a finite, positive number of seconds.
+
+    ``bool`` is excluded although it is an ``int``: ``True`` would be emitted
+    as the JSON literal ``true``, not as a number.
+    """
+    if isinstance(ttl, bool) or not isinstance(ttl, (int, float)):
+        return False
+    return 0 < ttl < math.inf
 
 
 class _RateLimiter:
@@ -305,6 +317,23 @@ class _TokenIntrospectionResource:
             )
             self._refuse(resp, HTTPStatus.NOT_FOUND, "unresolved")
             return
+
+        if not _usable_ttl(identity.ttl_seconds):
+            # The asker treats ``ttl_seconds`` as an authorization window.  A
+            # zero, negative, non-finite or non-numeric value is a resolver
+            # fault, not an answer: report it as 5xx so it is retried, rather
+            # than as a definitive refusal or a window nobody chose.  (NaN and
+            # infinity would also leave ``json.dumps`` as tokens that are not
+            # JSON.)
+            _logger.error(
+                "introspection: resolver returned an unusable ttl_seconds",
+                extra={
+                    "principal": caller,
+                    "token_digest": digest,
+                    "ttl_type": type(identity.ttl_seconds).__name__,
+                },
+            )
+            raise falcon.HTTPInternalServerError()
 
         _logger.info(
             "introspection: resolved",
